@@ -174,6 +174,9 @@ func bodyMulti(c *hk.Ctx, prop string) {
 					t.WantCpu = 64 // no agent has that much: creation fails at deployment, after its siblings were launched
 				}
 			}
+			if prop == "C04" && t.Critical && c.F(6, "start-transition-fails") == 5 {
+				t.OnEvent["START"] = "error-state" // START_ACTIVITY fails: the environment ends in ERROR, still holding its detectors
+			}
 			wf.Tasks = append(wf.Tasks, t)
 			m.specByClass[t.Class] = t
 			classes[t.Class] = yamlTaskClass(t)
@@ -426,6 +429,13 @@ func (m *multi) runOwnership() {
 				if c.W(6, "cleanup-now") == 5 {
 					m.cleanup()
 				}
+				if m.prop == "C04" && c.F(6, "reconnect") == 5 {
+					// the connection to the master drops and comes back: reconciliation answers for
+					// every task (no executor id in them)
+					c.Count("fault.c04.reconnect")
+					m.s.mesos.DropSubscription()
+					simrt.Sleep(3 * time.Second)
+				}
 				if m.prop == "C04" && c.W(5, "cleanup-by-id") == 4 {
 					// an operator cleaning up "the tasks on that host": ids taken from GetTasks
 					m.cleanupIds()
@@ -506,15 +516,26 @@ func (m *multi) checkObservation(o *obs) {
 						rec[e.ID] = e
 					}
 				}
+				newRet := map[int]int{}
 				for _, r := range m.sc.Requests {
 					if strings.HasPrefix(r.Op, "NEW") {
 						newInv[r.Env] = r.invoke
+						if r.done {
+							newRet[r.Env] = r.ret
+						}
 					}
 				}
 				for _, pair := range [][2]string{{eid, other}, {other, eid}} {
 					a, b := rec[pair[0]], rec[pair[1]]
-					if a != nil && b != nil && a.destroyReqSeq != 0 && a.destroyReqSeq < newInv[b.Idx] {
+					if a == nil || b == nil {
+						continue
+					}
+					switch {
+					case a.destroyReqSeq != 0 && a.destroyReqSeq < newInv[b.Idx]:
 						sig = "detector-in-two-environments:created-during-teardown-of-the-holder"
+					case newRet[a.Idx] != 0 && newRet[a.Idx] < newInv[b.Idx] && a.destroyReqSeq == 0:
+						// a's creation had returned before b's was even requested: no race of two creations
+						sig = "detector-in-two-environments:created-while-the-holder-was-established"
 					}
 				}
 				m.mu.Unlock()
